@@ -397,7 +397,8 @@ struct LenpHarness : Harness {
             c.ev(EV_API, 8, (uint64_t)rc, (uint64_t)cap);
             if (!fin) { F("noprogress", "no return within the step budget"); return; }
             if (declared_only) {
-                if (rc != -ENOMEM) F("nomem", "destination of %lld octets, prefix declares %llu: returned %zd, expected -ENOMEM", (long long)cap, (unsigned long long)declared_only, rc);
+                // beyond SSIZE_MAX the length cannot even be reported as a result: any refusal will do there, out-of-memory is demanded below that
+                if (rc != -ENOMEM && !(declared_only > (uint64_t)SSIZE_MAX && rc < 0)) F("nomem", "destination of %lld octets, prefix declares %llu: returned %zd, expected -ENOMEM", (long long)cap, (unsigned long long)declared_only, rc);
                 if (!dst.unchanged_outside(0, 0)) F("nomem", "destination modified although the declared frame does not fit");
                 return;
             }
@@ -426,7 +427,7 @@ struct LenpHarness : Harness {
             if (!fin) { F("noprogress", "no return within the step budget"); return; }
             size_t L = payloads[0].size();
             if (declared_only) {
-                if (rc != -ENOMEM) F("nomem", "room for %lld octets, prefix declares %llu: returned %zd, expected -ENOMEM", (long long)cap, (unsigned long long)declared_only, rc);
+                if (rc != -ENOMEM && !(declared_only > (uint64_t)SSIZE_MAX && rc < 0)) F("nomem", "room for %lld octets, prefix declares %llu: returned %zd, expected -ENOMEM", (long long)cap, (unsigned long long)declared_only, rc);
                 if (D.b.used != used0 || D.b.offset != off0 || !D.blk->unchanged_outside(0, 0)) F("nomem", "destination buffer changed although the declared frame does not fit");
                 return;
             }
